@@ -16,7 +16,7 @@ NCPU = os.cpu_count() or 4
 
 VARIANTS = {
     # every correspondence run uses `asan`
-    "asan": "-O1 -g -fsanitize=address,undefined -fno-sanitize=null,bool,enum -fno-sanitize-recover=all -fno-omit-frame-pointer -D%s" % GUARD,
+    "asan": "-O1 -g -fsanitize=address,undefined -fno-sanitize=null,bool,enum,vptr,alignment,object-size -fno-sanitize-recover=all -fno-omit-frame-pointer -D%s" % GUARD,
     # exhaustive sweeps, PCM renders
     "plain": "-O2 -g -D%s" % GUARD,
 }
@@ -80,7 +80,7 @@ def build_lib(variant="asan"):
     """CMake+Ninja build of /repo's working tree, default options + hooks + variant flags.
     Returns the build dir (contains libOPNMIDI.a)."""
     th = tree_hash()
-    bdir = os.path.join(CACHE, "t-" + th, variant + "-" + hashlib.sha256(VARIANTS[variant].encode()).hexdigest()[:8])
+    bdir = os.path.join(CACHE, "t-" + th, variant + "-" + hashlib.sha256((VARIANTS[variant] + open(os.path.join(HERE, "cxxwrap.py")).read()).encode()).hexdigest()[:8])
     lib = os.path.join(bdir, "libOPNMIDI.a")
     stamp = os.path.join(bdir, ".ok")
     if os.path.exists(stamp) and os.path.exists(lib):
@@ -89,7 +89,9 @@ def build_lib(variant="asan"):
     _prune_cache("t-" + th)
     flags = VARIANTS[variant]
     t0 = time.time()
-    p = run(["cmake", "-G", "Ninja", "-S", REPO, "-B", bdir, "-DCMAKE_BUILD_TYPE=None",
+    wrap = os.path.join(HERE, "cxxwrap.py")
+    launcher = ["-DCMAKE_C_COMPILER_LAUNCHER=%s;%s" % (sys.executable, wrap), "-DCMAKE_CXX_COMPILER_LAUNCHER=%s;%s" % (sys.executable, wrap)] if variant == "asan" else []
+    p = run(["cmake", "-G", "Ninja", "-S", REPO, "-B", bdir, "-DCMAKE_BUILD_TYPE=None"] + launcher + [
              "-DCMAKE_C_FLAGS=" + flags, "-DCMAKE_CXX_FLAGS=" + flags, "-DWITH_UNIT_TESTS=OFF",
              "-DlibOPNMIDI_STATIC=ON", "-DlibOPNMIDI_SHARED=OFF"])
     if p.returncode != 0:
